@@ -843,9 +843,14 @@ found:
 		escape := false
 		for i, c := range x.line {
 			if escape {
-				// Continuation line - remove \ then continue
+				// Continuation line - remove \ then continue,
+				// except in a raw string which keeps both
 				if c == '\n' {
-					buf.Truncate(buf.Len() - 1)
+					if rawString {
+						_, _ = buf.WriteRune(c)
+					} else {
+						buf.Truncate(buf.Len() - 1)
+					}
 					goto readMore
 				}
 				_, _ = buf.WriteRune(c)
